@@ -201,6 +201,25 @@ CLAIMED = {
         design_ref="DESIGN.md §6 C19",
         note="Trusted: Coq kernel + vm_compute; the Python harness that maps command lines/metadata to tri-state arguments (parse oracle: Rust's f32 parser via the runner).",
         technique="Coq decision model + precedence/refusal theorems + binary-level correspondence over the configuration lattice"),
+    "C17": dict(
+        text="Executable Coq model of the text outputs (Model/Text.v): Rust's {:.N} of f32 values (round half to even on "
+             "the exact value), f32 rounding of sums (f32round), escape_xml, the whole XML document (factors, components, "
+             "metadata, comments, demands) and the whole plain report (template, sorted tables, DHW indicator). Theorems: "
+             "C17_xml_well_formed (the document is in the grammar of Spec/Xml.v for ANY factors, components, comment and "
+             "metadata text and figures), C17_escape_any_text (any byte string becomes legal character data), "
+             "C17_escape_keeps_clean_text, C17_figures_at_precision (a figure written with d decimals denotes a number "
+             "within half a unit of the last decimal), C17_json_rounding, C17_tables_order_independent (table order does "
+             "not depend on the visiting order). The tie to the code: to_plain() and to_xml() of the implementation are "
+             "compared BYTE FOR BYTE with the model evaluated on the implementation's own figures, on buildings whose "
+             "comments and metadata carry XML-special, non-ASCII and control characters; fmt_fixed and f32round are "
+             "compared with Rust's formatter and f32 arithmetic. Failing-input search on the implementation's output: "
+             "expat well-formedness, every figure of both reports against the result at its precision, JSON parse, JSON "
+             "against the result, serde read-back, two processes compared, the files written by the cteepbd binary. "
+             "PARTIAL: the JSON writer (serde_json) is not modelled, JSON validity/read-back is decided on the "
+             "implementation's output only. One known finding (JSON member order varies between runs).",
+        design_ref="DESIGN.md §6 C17",
+        note="Trusted: Coq kernel + vm_compute; Spec/Xml.v as the definition of well-formedness; Python's expat and json as oracles for the search.",
+        technique="Coq model of formatters + well-formedness/escaping/precision theorems + byte-exact model/impl correspondence + output oracles"),
 }
 
 PENDING_REASON = "not claimed yet in this round: model/theorems for this property are still being built (see DESIGN.md §10 order of work)"
